@@ -101,10 +101,14 @@ func InsertOption82(pkt []byte, opt82 []byte, policy string) []byte {
 		}
 		code := pkt[i]
 		if i+1 >= len(pkt) {
+			// cut-off trailing option: drop the fragment, otherwise its
+			// length byte would swallow the option appended below
+			pkt = pkt[:i]
 			break
 		}
 		optLen := int(pkt[i+1])
 		if i+2+optLen > len(pkt) {
+			pkt = pkt[:i]
 			break
 		}
 		if code == OptRelayAgentInfo {
